@@ -49,6 +49,23 @@ def iqu_():
     return StokesIQUPyTree.structure_for((2,), _DEFAULT['dtype'])
 
 
+def stokes_(kind):
+    from furax.landscapes import StokesPyTree
+    return StokesPyTree.class_for(kind).structure_for((2,), _DEFAULT['dtype'])
+
+
+def other_stokes_programs(fam):
+    """Programs over the IQUV / QU families: leaves, (double) transposes, inverses of rotations, short chains and their transposes."""
+    L = lambda n, i=0: ('leaf', n, i)  # noqa: E731
+    base = [L(n) for n in FAM[fam]]
+    out = list(base) + [('T', b) for b in base] + [('T', ('T', b)) for b in base] + [('I', L('R')), ('I', L('Rs')), ('I', L('H'))]
+    chains = [('@', L('R'), L('H')), ('@', ('T', L('R')), L('H')), ('@', L('R'), ('T', L('R2', 1))), ('@', ('T', L('R')), ('T', L('R2', 1))),
+              ('@', L('Pol'), L('R')), ('@', L('Pol'), L('H')), ('@', L('Dq'), ('T', L('R'))), ('comp', (('T', L('R')), L('H'), L('R'))),
+              ('+', L('R'), ('T', L('R2', 1))), ('@', ('T', L('Pol')), L('Pol'))]
+    out += chains + [('T', c) for c in chains] + [('red', c) for c in chains] + [('T', ('red', c)) for c in chains[:4]]
+    return out
+
+
 def tree_():
     return {'a': S(3), 'b': [S(2, 3), S(3)]}
 
@@ -132,6 +149,24 @@ FAM = {
         'Dq': (((2,),), lambda d: DiagonalOperator(d, in_structure=iqu_()), ''),
         'Ix': ((), lambda: IndexOperator(IDX3, in_structure=iqu_()), ''),
         'Id': ((), lambda: IdentityOperator(iqu_()), ''),
+    },
+    # the other Stokes kinds (the default family above is IQU): polarimetry operators only
+    'iquv': {
+        'R': (((2,),), lambda a: QURotationOperator(a, stokes_('IQUV')), ''),
+        'R2': (((2,),), lambda a: QURotationOperator(a, stokes_('IQUV')), ''),
+        'Rs': (((),), lambda a: QURotationOperator(a, stokes_('IQUV')), ''),
+        'H': ((), lambda: HWPOperator(stokes_('IQUV')), ''),
+        'Pol': ((), lambda: LinearPolarizerOperator(stokes_('IQUV')), ''),
+        'Dq': (((2,),), lambda d: DiagonalOperator(d, in_structure=stokes_('IQUV')), ''),
+        'Pk': ((), lambda: PackOperator(M2, stokes_('IQUV')), ''),
+    },
+    'qu': {
+        'R': (((2,),), lambda a: QURotationOperator(a, stokes_('QU')), ''),
+        'R2': (((2,),), lambda a: QURotationOperator(a, stokes_('QU')), ''),
+        'Rs': (((),), lambda a: QURotationOperator(a, stokes_('QU')), ''),
+        'H': ((), lambda: HWPOperator(stokes_('QU')), ''),
+        'Pol': ((), lambda: LinearPolarizerOperator(stokes_('QU')), ''),
+        'Dq': (((2,),), lambda d: DiagonalOperator(d, in_structure=stokes_('QU')), ''),
     },
     'tree': {
         'I': ((), lambda: IdentityOperator(tree_()), ''),
